@@ -393,7 +393,9 @@ class CHECK(vlib.Check):
                 "route and routing-flag parameters, reply contents of GETPARAMETERS/GETDATATREES, JETTISON* (no-op: exact when the sender's outgoing queue is empty, so never generated inside a batch or cut stream), INSERTORDEREDDATA with several keys, "
                 "the INDEXUPDATED notifications, the node-count limit, sockets and the event loop.  Ordered children (Refl/IsoOrd.v): "
                 "INSERTORDEREDDATA with one key (name generation from the per-node counter, insert-before / append / PR_NAME_REMOVE_FROM_INDEX), "
-                "REORDERDATA, index entries and counters going with removed nodes.")
+                "REORDERDATA, PR_COMMAND_SETDATA with SETDATANODE_FLAG_ADDTOINDEX in PR_NAME_FLAGS (alone and with QUIET / DONTCREATENODE / DONTOVERWRITEDATA: "
+                "a new leaf is created through InsertOrderedChild with all subscribers' marks placed, announced unless QUIET, appended to its parent's "
+                "index; an existing leaf is left alone), index entries and counters going with removed nodes.")
     premises = ["MatchLaws (Refl/BaseProofs.v; C15): clause text equality is decidable, '*' matches every name, a clause reported unique / "
                 "list-of-unique-values matches exactly its keys -- premise of detach_clean and as_if_never (frame_own_subtree needs nothing)",
                 "fx_guard fx = true: the traversal's full-path re-check is skipped only for a single pattern (F12 repair, /repo 63c5c82); the "
@@ -417,7 +419,7 @@ class CHECK(vlib.Check):
             "after every (all) / around every Message boundary (some) byte of a client's stream; after EVERY op messages, tree with subscriber "
             "tables, subscriptions, limits, privilege bits and liveness are compared with the extracted model; frame / detach-trace / "
             "as-if-never oracles on the implementation, the same statements on the model's states; one more stream (label i) adds "
-            "INSERTORDEREDDATA / REORDERDATA in full generality (several keys), judged by the oracles and sanitizers alone; stream q restricts them to what Refl/IsoOrd.v models (one key) and compares tree, ordered indices and sessions with the extracted model after every op.  Non-trivial = at least two sessions, "
+            "INSERTORDEREDDATA / REORDERDATA in full generality (several keys), judged by the oracles and sanitizers alone; stream q restricts them to what Refl/IsoOrd.v models (one key) and compares the PR_RESULT_DATAITEMS every client received about foreign subtrees, tree, ordered indices, subscriber tables and sessions with the extracted model after every op; both ordered streams carry SETDATA with PR_NAME_FLAGS QUIET / ADDTOINDEX / both.  Independent of the model, after every op of every stream the marks oracle checks that each node carries for each attached session exactly as many subscription marks as that session's subscriptions match it.  Non-trivial = at least two sessions, "
             "a subscription or data of another session in place, and then a hostile command, a departure or a cut.")
 
     def gen_cases(self, rng, tier):
